@@ -32,12 +32,12 @@ class CheckC06(core.Check):
             for p in PATTERN_NAMES:
                 sets = [x for x in valid_psk_sets(p) if x]
                 for ps in [()] + rnd.sample(sets, 2):
-                    for _ in range(30 if not ps else 18):
+                    for _ in range(160 if not ps else 100):
                         descs.append((make_name(p, ps, rnd.choice(DHS), rnd.choice(CIPHERS), rnd.choice(HASHES)), rnd.getrandbits(32)))
         else:
             for p, ps in all_variants():
                 for ci in ("ChaChaPoly", "AESGCM"):
-                    for _ in range(30):
+                    for _ in range(250):
                         descs.append((make_name(p, ps, rnd.choice(DHS), ci, rnd.choice(HASHES)), rnd.getrandbits(32)))
         return descs
 
